@@ -22,9 +22,10 @@ func init() {
 		Bounds:      func(tier string) map[string]any { return map[string]any{"constructs": len(gen.Constructs()), "stmt_seq_len": 3} },
 		NewCase:     func() any { return &MCase{} },
 		Gen:         c01Gen,
+		Setup:       cliSetup,
 		Run: func(env *core.Env, ci any) core.Outcome {
 			c := ci.(*MCase)
-			v := judgeModel(c, canon.Options{})
+			v := judgeModelBoth(env, c, canon.Options{}, 1)
 			o := v.Out
 			if strings.Contains(c.Tag, "/mutant:") {
 				o.Nontrivial = true
